@@ -332,11 +332,16 @@ func c08CurveTag(c elliptic.Curve) string {
 	case elliptic.P521():
 		return "P-521"
 	}
-	if c != nil && c.Params() != nil && c.Params().Name == "secp256k1" {
+	// goat's secp256k1 curve is recognised by IDENTITY (the singleton registered by c08_keys.go), never by the name an
+	// elliptic.Curve value reports about itself
+	if c != nil && c08Secp256k1Singleton != nil && c == c08Secp256k1Singleton {
 		return "secp256k1"
 	}
 	return "other"
 }
+
+// c08Secp256k1Singleton is set by c08_keys.go (this file does not import goat).
+var c08Secp256k1Singleton elliptic.Curve
 
 func c08EcdhTag(c ecdh.Curve) string {
 	switch c {
